@@ -83,6 +83,7 @@ def extract(root='/repo', std='c++14', scratch=None, extra_tus=()):
         prog.aliases = normalise.resolve_reference_aliases(prog)
         prog.continues = normalise.canonical_continue(prog)
         prog.returns_canon = normalise.canonical_returns(prog)
+        prog.any_of_loops = normalise.any_of_guards(prog)
         pn = os.path.join(os.path.dirname(os.path.abspath(__file__)), 'param_names.json')
         prog.renamed_params = normalise.canonical_param_names(prog, json.load(open(pn))) if os.path.exists(pn) else 0
         return prog
